@@ -110,6 +110,8 @@ type BackupCase struct {
 	OffsetS int      `json:"offset_s"` // the loop starts this many seconds (+7ms) after a whole minute of the (virtual) wall clock
 }
 
+const retryWithin = 3 * time.Minute
+
 var spin = h.NewSpinWatch("C17", "backup", "periodicBackup", 10, 2*time.Second)
 
 func runC17(t *testing.T, c BackupCase) (v *h.Violation, info h.Info) {
@@ -251,7 +253,11 @@ func runC17Bubble(dir string, c BackupCase, info *h.Info) *h.Violation {
 		if last.ok && firstPendingWrite > base {
 			base = firstPendingWrite
 		}
-		due := base + 60*time.Second + time.Second
+		// The property says a failed upload "is retried" and that attempts are "at most once a
+		// minute"; it gives no upper bound for the pause. The check reads "is retried" as "within
+		// three minutes" - a loop that pauses a minute plus some jitter is as good as one that
+		// pauses exactly a minute.
+		due := base + retryWithin
 		if cancelAt > due {
 			return h.V("failed-or-pending-upload-is-retried", "a change was pending after the last attempt (ok=%v, ended %v) but no further attempt came by %v (due by %v); %s", last.ok, last.end, cancelAt, due, desc())
 		}
@@ -319,7 +325,7 @@ func genBackupCase(rt *rapid.T) BackupCase {
 
 var c17 = &h.Campaign[BackupCase]{
 	Prop: "C17", Sub: "backup",
-	Rule: "rapid + testing/synctest: timelines over virtual time of database writes (single, bursts, long idle gaps, during uploads), an upload outcome script (ok / HTTP 403 / network error / slow then ok / hangs until the request context ends) served by an in-memory HTTP client behind a real s3.Client, and cancellation at a generated instant; the real periodic backup loop runs through the build-tagged hook; every database file version is snapshotted by the harness; a watchdog outside the bubble reports a loop that stays runnable without virtual progress (>= 10 samples over >= 2 s real time); non-trivial = timeline with an idle gap > 1 minute, a failed upload, or a write racing an upload; distinct by timeline",
+	Rule: "rapid + testing/synctest: timelines over virtual time of database writes (single, bursts, long idle gaps, during uploads), an upload outcome script (ok / HTTP 403 / network error / slow then ok / hangs until the request context ends) served by an in-memory HTTP client behind a real s3.Client, and cancellation at a generated instant; the real periodic backup loop runs through the build-tagged hook; every database file version is snapshotted by the harness; a pending change (failed upload, or a write after the last attempt) must be attempted again within three minutes - the check's reading of 'is retried', for which the property gives no bound; a watchdog outside the bubble reports a loop that stays runnable without virtual progress (>= 10 samples over >= 2 s real time); non-trivial = timeline with an idle gap > 1 minute, a failed upload, or a write racing an upload; distinct by timeline",
 	Quick: 1500, Thorough: 600000,
 	Gen:   genBackupCase,
 	Run:   runC17,
